@@ -120,6 +120,27 @@ SECONDARY_SHAPES = {"proxylist", "proxyrecord", "sized0", "sized1", "sizedmax", 
                     "dc_frozen", "dc_slots", "userstring", "simplens", "dictget", "tuplesub", "userlist",
                     "time", "timedelta", "complex", "fraction", "frozenset", "mapobj", "iterator",
                     "ntplain", "dcplain_nospy", "simplens_nospy", "date"}
+# the configuration axis.  False / True are the two base configurations.
+CONFIGS: dict[Any, dict[str, Any]] = {
+    False: {},
+    True: {"auto_escape": True},
+    "lim_generous": {"local_namespace_limit": 10**7, "loop_iteration_limit": 10**5, "output_stream_limit": 10**6},
+    "lim_local_tight": {"local_namespace_limit": 2000},
+    "lim_tight": {"local_namespace_limit": 2000, "loop_iteration_limit": 6, "output_stream_limit": 60},
+    "ae_lim_generous": {"auto_escape": True, "local_namespace_limit": 10**7, "loop_iteration_limit": 10**5,
+                        "output_stream_limit": 10**6},
+    "strict": {"undefined": "StrictUndefined"},
+    "falsystrict": {"undefined": "FalsyStrictUndefined"},
+    "debug": {"undefined": "DebugUndefined"},
+    "shorthand": {"shorthand_indexes": True},
+    "strict_lim_tight": {"undefined": "StrictUndefined", "local_namespace_limit": 2000, "loop_iteration_limit": 6},
+}
+# with a tight output limit the outcome depends on how long the NAME itself is wherever it is
+# echoed as text, so the hidden-name relation says nothing there (the other monitors still run)
+REL_OFF_CFGS = {"lim_tight"}
+EXTRA_CFGS = [k for k in CONFIGS if k not in (False, True)]
+LOCAL_LIMIT_CFGS = {k for k, v in CONFIGS.items() if "local_namespace_limit" in v}
+WRITES_LOCALS_RE = re.compile(r"\{%-?\s*(assign|capture|increment|decrement|liquid)\b")
 LOOP_SITES = ("tag.for", "tag.tablerow", "tag.include_for", "tag.render_for", "path.special",
               "path.then_special", "path.field_then", "out.range", "tag.macro", "tag.with")
 RELAXED_PY_SHAPES = {"generator", "iterator", "mapobj", "dictkeys"}
@@ -399,16 +420,30 @@ class Runner:
         self.Markup = Markup
         self.DictLoader = DictLoader
         self.scan = Scan()
-        self.envs: dict[bool, Any] = {}
-        for ae in (False, True):
-            env = Environment(loader=DictLoader({}), auto_escape=ae)
-            for name in list(env.filters):
-                env.filters[name] = RecFilter(name, env.filters[name], self.scan)
-            self.envs[ae] = env
-        self.filter_names = sorted(self.envs[False].filters)
+        self.Environment = Environment
+        self.envs: dict[Any, Any] = {}
+        self.filter_names = sorted(self.env_for(False).filters)
         self.sites = SITES.all_sites(self.filter_names)
         self.site_by_id = {s["id"]: s for s in self.sites}
         self._names_cache: dict[str, list[str]] = {}
+
+    def env_for(self, cfg: Any) -> Any:
+        """cfg: False / True (auto_escape off / on, no limits) or a key of CONFIGS."""
+        env = self.envs.get(cfg)
+        if env is None:
+            from liquid2 import undefined as U
+
+            spec = CONFIGS[cfg]
+            attrs = {k: v for k, v in spec.items() if k not in ("auto_escape", "undefined")}
+            cls = type(f"Env_{cfg}", (self.Environment,), attrs)
+            kw: dict[str, Any] = {"auto_escape": bool(spec.get("auto_escape"))}
+            if "undefined" in spec:
+                kw["undefined"] = getattr(U, spec["undefined"])
+            env = cls(loader=self.DictLoader({}), **kw)
+            for name in list(env.filters):
+                env.filters[name] = RecFilter(name, env.filters[name], self.scan)
+            self.envs[cfg] = env
+        return env
 
     # -- data -------------------------------------------------------------------------
     def builtin_value(self, shape: str, i: int) -> Any:
@@ -502,7 +537,8 @@ class Runner:
         return f"obj['{kind}']" if variant else f"obj.{kind}"
 
     def execute(self, shape: str, site: dict[str, Any], name: str, name2: str, mode: str,
-                ae: bool, verbose: bool = False, kind: str = "", variant: int = 0) -> dict[str, Any]:
+                ae: Any, verbose: bool = False, kind: str = "", variant: int = 0,
+                hidden_variant: int = 0) -> dict[str, Any]:
         src = site["src"]
         if shape in SITES.CARRIER_SHAPES:
             src = src.replace("@P@", self.carrier_path(shape, kind, variant))
@@ -511,7 +547,11 @@ class Runner:
             src = pre + src + post
         src = src.replace("@N@", name).replace("@M@", name2)
         tpls = {k: v.replace("@N@", name).replace("@M@", name2) for k, v in SITES.PARTIALS.items()}
-        data = self.build_data(shape, name, name2)
+        O.HIDDEN_VARIANT[0] = hidden_variant
+        try:
+            data = self.build_data(shape, name, name2)
+        finally:
+            O.HIDDEN_VARIANT[0] = 0
         if shape in SITES.CARRIER_SHAPES:
             cs = O.make_callables()
             data["objs"] = [cs[k_] for k_ in O.CALLABLE_KINDS]
@@ -523,7 +563,7 @@ class Runner:
                 data["obj"] = list(data["objs"])
             else:
                 data["obj"] = cs[kind]
-        env = self.envs[ae]
+        env = self.env_for(ae)
         env.loader = self.DictLoader(tpls)
         mon = O.MON
         # a logged name counts as template-controlled only if the template text / data of
@@ -596,13 +636,27 @@ class Runner:
             name2 = rng.choice(SECOND_NAMES)
             res = self.execute(shape, site, name, name2, mode, ae, **kv)
             self._account(shape, site, name, name2, mode, ae, res, is_spy, kv)
+            if ae in LOCAL_LIMIT_CFGS and is_spy:
+                # non-interference twin: same program, same object through the documented
+                # protocol, different hidden state -> same outcome
+                twin = self.execute(shape, site, name, name2, mode, ae, hidden_variant=1, **kv)
+                self._account(shape, site, name, name2, mode, ae, twin, is_spy, kv)
+                ctx.count("noninterference_checks")
+                a_ = ("ok", res["out"]) if res.get("ok") else ("err", res["err"])
+                b_ = ("ok", twin["out"]) if twin.get("ok") else ("err", twin["err"])
+                if a_ != b_:
+                    self._violation(
+                        f"noninterference:{ae}@{_site_family(site['id'])}",
+                        "two objects identical through the documented protocol but differing in a hidden "
+                        "attribute give different outcomes",
+                        shape, site, name, name2, mode, ae, twin, res, kv=kv)
             if kind:
                 ctx.count("callable_path_renders")
                 ctx.seen("callable_kind_site_mode", f"{shape}|{kind}|{site['id']}|{mode}")
             if "must-be-empty" in site["tags"] and res.get("ok") and res["out"].replace("|", "") != "":
                 self._violation("engine-attr:now", "an attribute of the built-in datetime object was rendered",
                                 shape, site, name, name2, mode, ae, res, None)
-            if not site["rel"] or name in vis or name2 in vis:
+            if not site["rel"] or name in vis or name2 in vis or ae in REL_OFF_CFGS:
                 continue
             ctx.count("relation_checks")
             a = ("ok", _mask(res["out"], (name, name2, CTRL, CTRL2), digits)) if res.get("ok") else ("err", res["err"])
@@ -634,6 +688,7 @@ class Runner:
         if not is_spy and res.get("parsed"):
             ctx.seen("engine_shape_site", f"{shape}|{site['id']}")
         ctx.seen("names", name)
+        ctx.seen("configs", str(ae))
         for b in res["bad"]:
             if b["kind"] == "attr-read":
                 key = b["key"]
@@ -643,7 +698,7 @@ class Runner:
                 if (form in ("g13", "g14", "g15", "g16") or kwname) and b["name"] not in O.INSTANCE_ALLOW:
                     which = kwname or ("context" if form in ("g13", "g14") else "environment")
                     key = f"attr-read:fixed:{b['name']}@injected-kwarg-override:{which}"
-                elif "takeover" in site["tags"]:
+                elif "takeover" in site["tags"] and b["name"].endswith("gettext"):
                     key = f"{key.split('@')[0]}@translations-variable-rebound"
                 what = f"{b['level']} attribute '{b['name']}' of a {b['shape']} object read by {b['caller']}: {b['why']}"
             elif b["kind"] == "called":
@@ -704,6 +759,8 @@ def floors(tier: str) -> dict[str, int]:
         "set:filters_called": 70,
         "renders_with_public_flow": 4_000 * k,
         "callable_path_renders": 4_000 * k,
+        "noninterference_checks": 1_500 * k,
+        "set:configs": len(CONFIGS),
         "set:callable_kind_site_mode": 2_000,
         "callable_items_served_by_drop": 1_000 * k,
     }
@@ -741,6 +798,9 @@ def run_shard(spec: dict[str, Any], ctx: Ctx) -> None:
                         aes = (False, True) if not quick else (rng.random() < 0.3,)
                         for ae in aes:
                             r.run_site(shape, site, nm, mode, ae, rng, kind=kind, variant=variant)
+                if WRITES_LOCALS_RE.search(site["src"]):
+                    r.run_site(shape, site, nm[:1], rng.choice(("sync", "async")), "lim_local_tight", rng,
+                               kind=kind, variant=0)
             last = (shape, site["id"], nm)
             continue
         is_spy = shape in O.CLASSES
@@ -779,6 +839,20 @@ def run_shard(spec: dict[str, Any], ctx: Ctx) -> None:
                 combos = [combos[rng.randrange(4)], combos[rng.randrange(4)]]
         for mode, ae in combos:
             r.run_site(shape, site, names, mode, ae, rng)
+        # configuration axis: limits / undefined types / shorthand indexes
+        full_src = (WRAP.get(shape, ("", ""))[0] if site["only"] is None else "") + site["src"]
+        extra: list[tuple[str, Any]] = []
+        if WRITES_LOCALS_RE.search(full_src):
+            extra += [("sync", "lim_local_tight"), ("async", "lim_generous")]
+            if not quick:
+                extra += [("async", "lim_local_tight"), ("sync", "strict_lim_tight"), ("sync", "ae_lim_generous")]
+        if quick:
+            if not (generic and not keyf) and rng.random() < 0.2:
+                extra.append((rng.choice(("sync", "async")), rng.choice(EXTRA_CFGS)))
+        else:
+            extra += [(rng.choice(("sync", "async")), c) for c in rng.sample(EXTRA_CFGS, 3)]
+        for mode, cfg in extra:
+            r.run_site(shape, site, names[:2], mode, cfg, rng)
         last = (shape, site["id"], names)
     ctx.count("filter_calls", r.scan.calls)
     for f in r.scan.filters_called:
@@ -802,7 +876,8 @@ def replay(wit: dict[str, Any], ctx: Ctx) -> None:
         print(f"replay C05: unknown site {wit['site']}")
         return
     shape, name, name2 = wit["shape"], wit["name"], wit.get("name2", "__mro__")
-    mode, ae = wit.get("mode", "sync"), bool(wit.get("auto_escape"))
+    mode, ae = wit.get("mode", "sync"), wit.get("auto_escape")
+    ae = ae if isinstance(ae, str) and ae in CONFIGS else bool(ae)
     is_spy = shape in O.CLASSES
     print(f"replay C05: shape={shape} site={site['id']} name={name} name2={name2} mode={mode} auto_escape={ae}")
     kv = {"kind": wit.get("kind", ""), "variant": int(wit.get("variant", 0) or 0)}
